@@ -102,6 +102,13 @@ def setBond (st : St) (b : Nat) (f : BondD → BondD) : St :=
   let bs := if b < st.bonds.size then st.bonds else st.bonds ++ Array.replicate (b + 1 - st.bonds.size) default
   { st with bonds := bs.modify b f }
 
+/-- the program does not end in a jump: the simulated processor halts past its last instruction
+    (hardware has no halt: such nets are compared in the simulator only) -/
+def halts (p : PProc) : Bool :=
+  match p.prog.getLast? with
+  | some w => p.arch.ops[getId (w.take p.arch.opBits)]? != some "j"
+  | none => true
+
 /-- destination register of the i2rw at address pc (second field after the opcode) -/
 def destReg (p : PProc) (pc : Nat) : Nat :=
   match p.prog[pc]? with
@@ -324,6 +331,7 @@ def step (st : St) (line : String) : St × List String :=
     -- nets with ends in the environment: the top-level wiring of external ports is C02's subject,
     -- the hardware nets here are built from processors only
     if st.bonds.any fun b => b.pp == envP || b.cons.any (·.1 == envP) then (st, ["RT skipped environment", "VT skipped environment"])
+    else if st.procs.any halts then (st, ["RT skipped halting", "VT skipped halting"])
     else if st.procs.any fun p => p.arch.ops.contains "sicv3" then (st, ["RT skipped sicv3"] ++ vlogNet st)   -- BMV.Rtl has no sicv3
     else (st, rtlNet st ++ vlogNet st)
   | _ => (st, [])
